@@ -34,9 +34,10 @@ inductive Out (n : Nat) where
   | notify (tgt : Fin n) : Out n               -- tgt.notifier.notify()
 deriving DecidableEq, Repr
 
-/-- Program counters.  Helper threads: `wait … done`; engine thread: `ewait … edone`. -/
+/-- Program counters.  Helper threads: `wait … done` (`done`: left the loop after all QUIT_ACKs; `gone`: terminated by
+    `~WorkerThread`, the communicator still exists); engine thread: `ewait … edone`. -/
 inductive Pc where
-  | wait | poll | search (j : Nat) | ackSelf | done
+  | wait | poll | search (j : Nat) | ackSelf | done | gone
   | ewait | eQ0 | eQ1 | eOpts1 | eS0 | eS1 | eBegin | eGo | esearch
   | ehold (ws : Bool) | ebest (ws : Bool)
   | estop | eack | ecollect | ecwait | epost | eend | eQuit0 | equit | eqwait | edone
@@ -212,7 +213,8 @@ inductive Ev (n : Nat) where
   | searchResult (v : Fin n)        -- own search returned a score: sendReportResult(jobId, score)
   | searchLeave (v : Fin n) (max : Bool)  -- doSearch returns (StopSearch, or maximum depth reached)
   | spawn (v p : Fin n)             -- new helper thread v with parent p (createWorkers)
-  | exit (v : Fin n)                -- helper thread terminated by ~WorkerThread
+  | tend (v : Fin n)                -- helper thread terminated by ~WorkerThread (`terminate`; notify; join)
+  | exit (v : Fin n)                -- its communicator is destroyed (`removeChild`)
   -- engine thread
   | eRdPre (x : Var) | eRd (x : Var) (b : Bool)
   | eOpts (k : Bool)                -- setOptions: swap pending options (E.mutex); k = some were pending
@@ -348,9 +350,19 @@ def parentClean (s : St n) (v : Fin n) : Bool :=
   | some p => decide (pendingTo (s.out p) v = 0) && (s.q p).all (fun c => !mentions v c)
   | none => false
 
-/-- `~WorkerThread`: children destroyed first, then `terminate = true; notify; join` -/
+/-- no helper thread has been terminated whose communicator still exists (the protocol thread is not inside `createWorkers`) -/
+def noGone (s : St n) : Bool := (List.finRange n).all (fun v => !(s.alive v && s.pc v == .gone))
+
+/-- `~WorkerThread`: `terminate = true; threadNotifier.notify(); thread->join()` — the thread saw `terminate` after a wake-up -/
+def stepTend (r : Fin n) (s : St n) (v : Fin n) : Option (St n) :=
+  if s.alive v = true ∧ v ≠ r ∧ s.pc v = .poll ∧ s.out v = [] ∧ s.q v = [] ∧ s.selfWait v = false ∧ s.childWait v = 0 ∧
+     s.jobId v = none ∧ mainLoopPc (s.pc r) = true ∧ s.search.cur = false ∧ s.search.nxt = none ∧ s.quitF.cur = false ∧ s.quitF.nxt = none then
+    some { s with pc := upd s.pc v .gone }
+  else none
+
+/-- `~Communicator` of a terminated helper: `parent->removeChild(this)` (its own children are gone already) -/
 def stepExit (r : Fin n) (s : St n) (v : Fin n) : Option (St n) :=
-  if s.alive v = true ∧ v ≠ r ∧ s.pc v = .poll ∧ s.out v = [] ∧ s.q v = [] ∧ mainLoopPc (s.pc r) = true ∧
+  if s.alive v = true ∧ v ≠ r ∧ s.pc v = .gone ∧ s.out v = [] ∧ s.q v = [] ∧ mainLoopPc (s.pc r) = true ∧
      s.selfWait v = false ∧ s.childWait v = 0 ∧ s.jobId v = none ∧ nChildren s v = 0 ∧
      parentClean s v = true then
     some { s with alive := upd s.alive v false }
@@ -442,12 +454,12 @@ def stepPWr (s : St n) : Var → Bool → Option (St n)
   | .infinite, b => if s.pOut = [] ∧ s.infinite.nxt = none then some { s with infinite := s.infinite.wr b } else none
   | .quit, b =>
       -- EngineMainThread::quit, only after stopSearch()/waitStop()
-      if s.pOut = [] ∧ s.quitF.nxt = none ∧ b = true ∧ s.search.cur = false ∧ s.search.nxt = none then
+      if s.pOut = [] ∧ s.quitF.nxt = none ∧ b = true ∧ s.search.cur = false ∧ s.search.nxt = none ∧ noGone s = true then
         some { s with quitF := s.quitF.wr true } else none
   | .search, b =>
       -- EngineMainThread::startSearch (E.mutex), only after waitStop() and waitOptionsSet(), never after quit
       if s.pOut = [] ∧ s.search.nxt = none ∧ b = true ∧ s.search.cur = false ∧ s.quitF.cur = false ∧ s.quitF.nxt = none ∧
-         s.optsFin = true then
+         s.optsFin = true ∧ noGone s = true then
         some { s with search := s.search.wr true, goCount := s.goCount + 1, epoch := s.epoch + 1 } else none
   | .hold, _ => none
 
@@ -485,6 +497,7 @@ def step (r : Fin n) (s : St n) : Ev n → Option (St n)
   | .searchResult v => stepSearchResult s v
   | .searchLeave v m => stepSearchLeave s v m
   | .spawn v p => stepSpawn r s v p
+  | .tend v => stepTend r s v
   | .exit v => stepExit r s v
   | .eRdPre x => stepERdPre r s x
   | .eRd x b => stepERd r s x b
